@@ -19,7 +19,8 @@ C02_Pool == {
   <<"SP", "SP", "HY", "SP">>,                          \* empty item text, indented
   <<"SP", "SP", "SP", "HY", "SP", "a">>,               \* 3 spaces: not a multiple of the unit 2
   <<"SP", "TAB", "HY", "SP", "a">>,                    \* mixes tabs and spaces
-  <<"SH", "SP", "a">>                                  \* heading root
+  <<"SH", "SP", "a">>,                                 \* heading root
+  <<"SH", "SH", "SP">>                                 \* heading with empty text
 }
 C02_Names == { <<"a">> }
 C02_Sigma == { [unit |-> <<>>, heading |-> FALSE, crlf |-> FALSE, bullets |-> {}, blanks |-> FALSE] }
